@@ -54,8 +54,15 @@ def run(ctx):
             if b != ("ok", n):
                 ctx.finding("decoder-side-value-wrong", {"n": n, "symbols": exp}, "got %r" % (b,))
         rng = ctx.rng
+        big = [16 ** k + d for k in range(4, 70) for d in (-2, -1, 0, 1)] + [2 ** k + d for k in range(17, 260, 3) for d in (-1, 0, 1)]
         for _ in range(300 if quick else 5000):
-            n = rng.randrange(65536, 16 ** 6)
+            x = rng.random()
+            if x < 0.4:
+                n = rng.randrange(65536, 16 ** 6)
+            elif x < 0.7:
+                n = rng.randrange(16 ** 6, 16 ** rng.randint(7, 70))       # every magnitude, far beyond float precision
+            else:
+                n = rng.choice(big)                                         # just below / at / above a power of 16 or 2
             exp = shortest_digits(n)
             r = call_guard(lambda: to_sym(n))
             b = call_guard(lambda: to_idx(*exp))
